@@ -24,9 +24,9 @@ import (
 // Fault kinds.
 const (
 	FaultNone        = ""
-	FaultCallError   = "call-error"   // the state-changing EVM call returns an error
-	FaultVMFailed    = "vm-failed"    // the call returns a result with a VM error
-	FaultWrongAmount = "wrong-amount" // the contract credits/debits one unit less than asked
+	FaultCallError   = "call-error"    // the state-changing EVM call returns an error
+	FaultVMFailed    = "vm-failed"     // the call returns a result with a VM error
+	FaultWrongAmount = "wrong-amount"  // the contract credits/debits one unit less than asked
 	FaultBalanceErr  = "balance-error" // balanceOf fails
 )
 
@@ -51,8 +51,8 @@ func k(parts ...[]byte) []byte {
 
 func (e *EVM) store(ctx sdk.Context) storetypes.KVStore { return ctx.MultiStore().GetKVStore(e.Key) }
 
-func (e *EVM) ChainID() *big.Int                              { return big.NewInt(16688) }
-func (e *EVM) SupportedKey(pubKey cryptotypes.PubKey) bool    { return true }
+func (e *EVM) ChainID() *big.Int                           { return big.NewInt(16688) }
+func (e *EVM) SupportedKey(pubKey cryptotypes.PubKey) bool { return true }
 func (e *EVM) EstimateGas(ctx context.Context, req *tokentypes.EthCallRequest) (uint64, error) {
 	return 3000000, nil
 }
